@@ -19,6 +19,7 @@ CONFIG = {
                  "ptt.isReadonlyBoard, types.Cstrcmp/Cstrcasecmp (as equality of C strings / of their ASCII-lower-cased forms)",
                  "cache.HbflReload / IsHiddenBoardFriend over the shared-memory friend-list row (the list file is the uid each line resolves to; "
                  "whether the reload replaces the whole row is regenerated from the source)",
+                 "the trace an accepted comment / edit leaves in the index entry (Modified := file time), as far as later decisions see it",
                  "bodies of DoPostArticle/Recommend/EditPost/CrossPost: regenerated event lists, interpreted"],
     "assumptions": [
         "valid uid and bid, consistent (bid, board name) pairs (C07's domain); I/O calls of the write path succeed; EditPost is given the "
